@@ -5,7 +5,7 @@ use crate::{c17, util::Toks};
 use klukai_agent::api::public::pubsub::verif_hooks as ph;
 use klukai_types::updates::verif_hooks as vh;
 use std::sync::atomic::Ordering::SeqCst;
-use std::time::Duration;
+use std::time::{Duration, Instant};
 use tokio::io::{AsyncReadExt, AsyncWriteExt};
 
 const SQL: &str = "SELECT id, text FROM tests";
@@ -70,8 +70,14 @@ async fn stream(addr: std::net::SocketAddr, method: &str, path: &str, body: &str
 async fn flush_subs() {
     let before = vh::SUBS_FLUSHED.load(SeqCst);
     vh::FLUSH_GEN.fetch_add(1, SeqCst);
+    let mut verif_bumped = Instant::now();
     let t0 = std::time::Instant::now();
     while vh::SUBS_FLUSHED.load(SeqCst) < before + 1 && t0.elapsed() < Duration::from_secs(20) {
+        if verif_bumped.elapsed() > Duration::from_millis(1500) {
+            // a loop that started after the bump took the bumped value as its baseline: bump again
+            vh::FLUSH_GEN.fetch_add(1, SeqCst);
+            verif_bumped = Instant::now();
+        }
         tokio::time::sleep(Duration::from_millis(2)).await;
     }
 }
